@@ -57,6 +57,12 @@ func c03bScenario(name string, chain []string, nq int, warm bool, age time.Durat
 			})
 		}
 		wg.Wait()
+		// a later client, after every background goroutine (lazy refresh, ...) has finished
+		vs.Sleep(10 * time.Second)
+		late := &obs{id: 0x7777}
+		late.rep = env.Arrive("udp", qs(late.id).Wire())
+		late.done = true
+		got = append(got, late)
 		finished = true
 		env.Close()
 	}
@@ -75,6 +81,7 @@ func c03bScenario(name string, chain []string, nq int, warm bool, age time.Durat
 		}
 		var key []string
 		want := qs(0).Msg()
+		canon := ""
 		for _, o := range got {
 			if o.rep.Count != 1 {
 				return V("one-reply", fmt.Sprintf("query %#x got %d replies", o.id, o.rep.Count))
@@ -101,6 +108,22 @@ func c03bScenario(name string, chain []string, nq int, warm bool, age time.Durat
 			if n != 1 {
 				return V("opt-count", fmt.Sprintf("query %#x (with OPT): reply carries %d OPT records", o.id, n))
 			}
+			// differential: the upstream is deterministic, so every client asking this question
+			// through this pipeline gets the same records (owner, type, data) whatever served it
+			var recs []string
+			for _, rr := range r.Answer {
+				h := *rr.Header()
+				h.Ttl = 0
+				c := dns.Copy(rr)
+				c.Header().Ttl = 0
+				recs = append(recs, c.String())
+			}
+			cs := fmt.Sprintf("rc%d %v", r.Rcode, recs)
+			if canon == "" {
+				canon = cs
+			} else if cs != canon {
+				return V("answer-differs-between-clients", fmt.Sprintf("query %#x got %s, an earlier client got %s", o.id, cs, canon))
+			}
 			key = append(key, fmt.Sprintf("rc%d/an%d", r.Rcode, len(r.Answer)))
 		}
 		return strings.Join(key, ","), nil
@@ -119,6 +142,7 @@ func TestVerifC03b(t *testing.T) {
 		c03bScenario("cache-aged-hit-x2", []string{"cache"}, 2, true, 2 * time.Second, d),
 		c03bScenario("cache-cold-x2", []string{"cache"}, 2, false, 0, d-1),
 		c03bScenario("cache-lazy-stale-x2", []string{"cache_lazy"}, 2, true, 1000 * time.Second, d-1),
+		c03bScenario("redirect-cache-lazy-stale-x2", []string{"redirect_hit", "cache_lazy"}, 2, true, 1000 * time.Second, d-1),
 		c03bScenario("redirect-cache-x2", []string{"redirect_hit", "cache"}, 2, true, 0, d-1),
 		c03bScenario("prefer-ipv4-x2", []string{"prefer_ipv4"}, 2, false, 0, d-1),
 		c03bScenario("fallback-cache-x2", []string{"cache", "fallback"}, 2, false, 0, d-1),
